@@ -19,7 +19,8 @@ from yamlpath.merger.exceptions import MergeException
 PROPERTY = "C10"
 LEVEL = "exploration"
 RULE = ("pairs of documents (maps with nested maps/lists) defining and aliasing scalar anchors from the pool {A1, A2, A3} "
-        "(optionally a pre-existing A1_1 to provoke rename collisions), values from a small pool so that equal-name/"
+        "(optionally pre-existing A1_1 / A2_1 / A1_2 in either document to provoke rename collisions), values from a small "
+        "pool in several spellings (x 'x' \"x\", 1 0x1 '1', true) so that equal-name/"
         "equal-value, equal-name/different-value and disjoint cases all occur; x anchor policies {stop, left, right, "
         "rename} x a sample of the C05 merge policies. Non-trivial = at least one anchor name is defined in both "
         "documents; distinct by (L, R, anchor policy, merge policies)")
@@ -28,9 +29,24 @@ ASSUMPTIONS = ["scalar anchors only (the statement's scope); anchors are defined
 REACH = [("yamlpath/merger/merger.py", "_resolve_anchor_conflicts,_calc_unique_anchor", "Merger._resolve_anchor_conflicts/_calc_unique_anchor"),
          ("yamlpath/common/anchors.py", "scan_for_anchors,rename_anchor,replace_anchor", "Anchors.scan/rename/replace")]
 SIZES = {"quick": 30000, "thorough": 800000}
-REQUIRED_COUNTERS = ["conflict_cases", "equal_value_cases", "reload_checked", "stop_refused"]
-VALS = ["x", "y", "1", "2"]
+REQUIRED_COUNTERS = ["conflict_cases", "equal_value_cases", "reload_checked", "stop_refused", "equal_value_other_spelling_cases",
+                     "rhs_defines_rename_target_name"]
+VALS = ["x", "y", "1", "2", "'x'", '"x"', "0x1", "'1'", '"y"', "0x2", "true"]
 NAMES = ["A1", "A2", "A3"]
+EXTRA_NAMES = ["A1_1", "A2_1", "A1_2"]       # what a rename of A1 / A2 would like to call itself
+
+
+def canon(text):
+    """The value a scalar spelling denotes (the spelling - quotes, number base - is not data)."""
+    if text[:1] in "'\"":
+        return ("str", text[1:-1])
+    if text.startswith("0x"):
+        return ("int", int(text, 16))
+    if text.isdigit():
+        return ("int", int(text))
+    if text in ("true", "false"):
+        return ("bool", text == "true")
+    return ("str", text)
 KEYS = ["a", "b", "c", "d", "e"]
 POLICIES = ["stop", "left", "right", "rename"]
 MERGE_SAMPLE = [("deep", "all", "all", "unique"), ("deep", "unique", "deep", "unique"), ("deep", "all", "unique", "left"),
@@ -45,7 +61,7 @@ def gen(rng, extra_name=False):
         x = rng.random()
         if defined and x < 0.3:
             return ("ali", rng.choice(sorted(defined)))
-        free = [n for n in NAMES + (["A1_1"] if extra_name else []) if n not in defined]
+        free = [n for n in NAMES + (EXTRA_NAMES if extra_name else []) if n not in defined]
         if free and x < 0.6:
             n = rng.choice(free)
             v = rng.choice(VALS)
@@ -111,7 +127,11 @@ def run_case(ctx, lt, ldefs, rt, rdefs, policy, combo):
     ltext, rtext = gd.render(lt), gd.render(rt)
     case = {"lhs": ltext, "rhs": rtext, "anchors": policy, "policies": combo}
     both = [n for n in ldefs if n in rdefs]
-    conflicts = [n for n in both if ldefs[n] != rdefs[n]]
+    conflicts = [n for n in both if canon(ldefs[n]) != canon(rdefs[n])]
+    if any(ldefs[n] != rdefs[n] for n in both if n not in conflicts):
+        ctx.count("equal_value_other_spelling_cases")
+    if any(n in EXTRA_NAMES for n in rdefs):
+        ctx.count("rhs_defines_rename_target_name")
     ctx.evaluations += 1
     if both:
         ctx.mark_nontrivial([ltext, rtext, policy, combo])
@@ -222,7 +242,7 @@ def run_shard(ctx):
     n = 0
     while ctx.evaluations < want:
         lt, ldefs = gen(rng, extra_name=rng.random() < 0.3)
-        rt, rdefs = gen(rng)
+        rt, rdefs = gen(rng, extra_name=rng.random() < 0.3)
         if rng.random() < 0.4 and ldefs:
             # make the right-hand document reuse a left-hand value for one shared name (equal-value case)
             pass
@@ -243,7 +263,7 @@ def run_text_case(ctx, ltext, ldefs, rtext, rdefs, policy, combo):
         t = re.sub(r"&(\w+) (\w+)", anc, t)
         return re.sub(r"\*(\w+)", lambda m: subst.get(m.group(1), defs[m.group(1)]), t)
     lt = ("raw", ltext)
-    conflicts = [n for n in ldefs if n in rdefs and ldefs[n] != rdefs[n]]
+    conflicts = [n for n in ldefs if n in rdefs and canon(ldefs[n]) != canon(rdefs[n])]
     lsub = {n: rdefs[n] for n in conflicts} if policy == "right" else {}
     rsub = {n: ldefs[n] for n in conflicts} if policy == "left" else {}
     case = {"lhs": ltext, "rhs": rtext, "anchors": policy, "policies": combo}
